@@ -192,6 +192,10 @@ class Library:
                 return self.struct_unpack(recv.format, args[0], exact=False, offset=off)
         # --- logging / warnings: effects dropped (A7), arguments were evaluated
         if isinstance(recv, logging.Logger) or f is warnings.warn:
+            if name == 'isEnabledFor':
+                return SBool(st.fresh_bool('log_enabled'))       # any logging configuration: both branches are explored
+            if name == 'getEffectiveLevel':
+                return SInt(st.fresh_int('log_level'))
             return None
         # --- methods of concrete receivers with possibly symbolic arguments
         if recv is not None and not isinstance(recv, types.ModuleType) and name is not None \
